@@ -306,7 +306,11 @@ impl Ctx {
       let clock = format!("{}.{:09}", secs, nanos);
       // the children also live in other time zones (POSIX TZ strings, no tz database needed): UTC+14, UTC-12, UTC+5:45
       let tz = ["UTC0", "AAA-14", "BBB12", "CCC-5:45"][i % 4];
-      let out = std::process::Command::new(&exe)
+      let mut cmd = std::process::Command::new(&exe);
+      if label.starts_with("frozen") {
+        cmd.env("PV_CLOCK_FREEZE", "1"); // the clock does not run: claims can sit on "now" to the nanosecond
+      }
+      let out = cmd
         .env("TZ", tz)
         .args([self.property, if self.quick() { "quick" } else { "thorough" }])
         .env("LD_PRELOAD", &lib)
@@ -347,7 +351,7 @@ impl Ctx {
             detail: format!("[wall clock set to {} = {}] {}", clock, label, f["detail"].as_str().unwrap_or("")),
             case: f["case"].clone(),
             shrunk: f["shrunk"].as_bool().unwrap_or(false),
-            clock: Some(clock.clone()),
+            clock: Some(if label.starts_with("frozen") { format!("{clock}F") } else { clock.clone() }),
             profile: None,
             env_value: None,
           });
@@ -982,7 +986,12 @@ pub fn replay(property: &str, subs: Vec<Box<dyn DynSub>>, file: &str) -> i32 {
     let lib = std::env::var("PV_FAKECLOCK").map(PathBuf::from).unwrap_or_else(|_| verif_dir().join(".work").join("libfakeclock.so"));
     if lib.exists() {
       if let Ok(exe) = std::env::current_exe() {
-        let st = std::process::Command::new(exe).args([property, "--replay", file]).env("LD_PRELOAD", &lib).env("PV_CLOCK_SET", clock).status();
+        // a trailing F: the clock stood still at that instant
+        let mut cmd = std::process::Command::new(exe);
+        if clock.ends_with('F') {
+          cmd.env("PV_CLOCK_FREEZE", "1");
+        }
+        let st = cmd.args([property, "--replay", file]).env("LD_PRELOAD", &lib).env("PV_CLOCK_SET", clock.trim_end_matches('F')).status();
         return st.ok().and_then(|s| s.code()).unwrap_or(2);
       }
     }
